@@ -1,8 +1,15 @@
-"""C06 - bounded read-only runtime contracts (see contracts/b_read.py)."""
+"""C06 - every reported location denotes exactly the text of its node."""
+from contracts import k_bistr
+from pyvc.contract import verify_all
 from pyvc import native
 
 
 def run(rep, tier, seed):
+    verify_all(rep, k_bistr.specs('C06'))
+    rep.assumptions.append('no Python string is longer than sys.maxsize bytes (bound on the values stored in bistr\'s '
+                           'fixed-width arrays; the only machine-width arithmetic in the library)')
     sec = native.run('b_read', 'main', {'props': ['C06'], 'tier': tier, 'seed': seed}, timeout=7200)
     sec['native_entry'] = ('b_read', 'replay')
     rep.bounded(sec)
+    rep.remainder = ('the regex / text scanners behind computed locations (common:next_frag/prev_frag/next_find/..., '
+                     'fst_locs:_loc_*) and the find_* searches: bounded stand-in only; b2c off character boundaries')
